@@ -33,7 +33,10 @@ def aggregate(run, results, pid, want_value=True, want_sides=False):
                 continue
             if m.get("model_contains") and m["model_contains"] not in r["model"]:
                 continue
-            if k.get("diagnose") and not OC.diagnose(k["diagnose"], rec):
+            if k.get("diagnose") == "unused_initializer_input_dropped":
+                if "default of an unused graph input dropped" not in (rec.get("detail") or ""):
+                    continue
+            elif k.get("diagnose") and not OC.diagnose(k["diagnose"], rec):
                 continue
             return k
         return None
@@ -91,6 +94,9 @@ def aggregate(run, results, pid, want_value=True, want_sides=False):
                 if s.get("initializer_inputs_lost"):
                     side_counts["initializer_inputs_lost"] += 1
                     problems.append(("initializer-input folded", str(s["initializer_inputs_lost"])))
+                if s.get("unused_initializer_input_defaults_dropped"):
+                    side_counts["unused_defaults_dropped"] = side_counts.get("unused_defaults_dropped", 0) + 1
+                    problems.append(("default of an unused graph input dropped", str(s["unused_initializer_input_defaults_dropped"])))
                 for kind, text in problems:
                     rec2 = dict(rec)
                     rec2["detail"] = f"{kind}: {text}"
